@@ -233,14 +233,17 @@ func (g *grpcClient) NewConn(
 ) StreamingClientConn {
 	// For unary calls the header map belongs to the caller's Request, which may
 	// be reused: never resend the timeout of an earlier call.
-	header.Del(grpcHeaderTimeout)
-	if deadline, ok := ctx.Deadline(); ok {
-		if encodedDeadline, err := grpcEncodeTimeout(time.Until(deadline)); err == nil {
-			// Tests verify that the error in encodeTimeout is unreachable, so we
-			// don't need to handle the error case.
-			header[grpcHeaderTimeout] = []string{encodedDeadline}
+	setTimeout := func() {
+		header.Del(grpcHeaderTimeout)
+		if deadline, ok := ctx.Deadline(); ok {
+			if encodedDeadline, err := grpcEncodeTimeout(time.Until(deadline)); err == nil {
+				// Tests verify that the error in encodeTimeout is unreachable, so we
+				// don't need to handle the error case.
+				header[grpcHeaderTimeout] = []string{encodedDeadline}
+			}
 		}
 	}
+	setTimeout()
 	duplexCall := newDuplexHTTPCall(
 		ctx,
 		g.HTTPClient,
@@ -248,6 +251,9 @@ func (g *grpcClient) NewConn(
 		spec,
 		header,
 	)
+	// A stream may be used some time after it was created: the timeout that
+	// goes out is what's left when the request is sent.
+	duplexCall.onRequestSend = setTimeout
 	conn := &grpcClientConn{
 		spec:             spec,
 		duplexCall:       duplexCall,
